@@ -60,8 +60,8 @@ StepBound(p, i) ==
 
 Advance(tags) ==
   /\ l' = l + 1
-  /\ dead' = (dead \/ tags # {})
-  /\ Flag(l, IF dead THEN {} ELSE tags)
+  /\ dead' = dead \cup PropsOf(tags)
+  /\ Flag(l, LiveTags(tags, dead))
 
 \* observed phase / position / output become the specification's
 Observe ==
@@ -70,7 +70,7 @@ Observe ==
   /\ val' = e.q
   /\ UNCHANGED <<inc, rolled>>
 
-RangeTags == IF e.k = NaNKey \/ e.k < 0 \/ e.k > KeyOne THEN {"C01:range"} ELSE {}
+RangeTags == IF e.k = NaNKey \/ e.k < 0 \/ e.k > KeyOne THEN {<<"C01", "range">>} ELSE {}
 
 \* ---- a logged tick --------------------------------------------------------------------------
 TickTags ==
@@ -80,24 +80,27 @@ TickTags ==
       same  == phase' = phase
       d     == acc' - acc
       dS    == Abs(S - sAtTick)
-  IN   (IF ~C02_order("tick") THEN {"C02:phase-order"} ELSE {})
-  \cup (IF acc' < 0 \/ acc' >= M THEN {"C02:position-range"} ELSE {})
-  \cup (IF phase \in Timed /\ same /\ (d < lo \/ d > hi) THEN {"C02:increment"} ELSE {})
-  \cup (IF phase \in Timed /\ same /\ acc + lo >= M THEN {"C02:overstays", "C17:phase-never-ends"} ELSE {})
-  \cup (IF phase \in Timed /\ same /\ d <= 0 THEN {"C17:no-progress"} ELSE {})
-  \cup (IF phase \in Timed /\ ~same /\ acc + hi < M THEN {"C02:leaves-early"} ELSE {})
-  \cup (IF phase \in Timed /\ ~same /\ acc' # 0 THEN {"C02:phase-start-position"} ELSE {})
-  \cup (IF phase \notin Timed /\ acc' # acc THEN {"C02:position-moves-untimed"} ELSE {})
+  IN   (IF ~C02_order("tick") THEN {<<"C02", "phase-order">>} ELSE {})
+  \cup (IF acc' < 0 \/ acc' >= M THEN {<<"C02", "position-range">>} ELSE {})
+  \cup (IF phase \in Timed /\ same /\ (d < lo \/ d > hi) THEN {<<"C02", "increment">>} ELSE {})
+  \* the phase is still running although its configured time has passed: late by more than the counter
+  \* resolution (C02), never ending (C17), and the output is not where the curve is at that time (C01)
+  \cup (IF phase \in Timed /\ same /\ acc + lo >= M
+          THEN {<<"C02", "overstays">>, <<"C17", "phase-never-ends">>, <<"C01", "curve-not-completed-in-time">>} ELSE {})
+  \cup (IF phase \in Timed /\ same /\ d <= 0 THEN {<<"C17", "no-progress">>} ELSE {})
+  \cup (IF phase \in Timed /\ ~same /\ acc + hi < M THEN {<<"C02", "leaves-early">>} ELSE {})
+  \cup (IF phase \in Timed /\ ~same /\ acc' # 0 THEN {<<"C02", "phase-start-position">>} ELSE {})
+  \cup (IF phase \notin Timed /\ acc' # acc THEN {<<"C02", "position-moves-untimed">>} ELSE {})
   \cup RangeTags
-  \cup (IF phase = "attack" /\ phase' = "decay" /\ e.k # KeyOne THEN {"C01:attack-end-level"} ELSE {})
-  \cup (IF phase' = "sustain" /\ e.k # Skey THEN {"C01:sustain-level"} ELSE {})
-  \cup (IF phase' = "rest" /\ e.k # 0 THEN {"C01:rest-level"} ELSE {})
-  \cup (IF cont /\ same /\ phase = "attack" /\ e.k < lastK THEN {"C01:attack-not-monotone"} ELSE {})
-  \cup (IF cont /\ same /\ phase \in {"decay", "release"} /\ e.k > lastK THEN {"C01:fall-not-monotone"} ELSE {})
+  \cup (IF phase = "attack" /\ phase' = "decay" /\ e.k # KeyOne THEN {<<"C01", "attack-end-level">>} ELSE {})
+  \cup (IF phase' = "sustain" /\ e.k # Skey THEN {<<"C01", "sustain-level">>} ELSE {})
+  \cup (IF phase' = "rest" /\ e.k # 0 THEN {<<"C01", "rest-level">>} ELSE {})
+  \cup (IF cont /\ same /\ phase = "attack" /\ e.k < lastK THEN {<<"C01", "attack-not-monotone">>} ELSE {})
+  \cup (IF cont /\ same /\ phase \in {"decay", "release"} /\ e.k > lastK THEN {<<"C01", "fall-not-monotone">>} ELSE {})
   \cup (IF phase' \in Timed /\ e.q # NaNKey /\ ~Near(e.q, Value(phase', acc', lvlOn, lvlOff, S), CurveTol)
-          THEN {"C01:curve"} ELSE {})
+          THEN {<<"C01", "curve">>} ELSE {})
   \cup (IF fresh /\ e.q # NaNKey /\ ~Near(e.q, val, StepBound(phase, hi) + dS + 4)
-          THEN {"C03:step"} ELSE {})
+          THEN {<<"C03", "step">>} ELSE {})
 
 TTick ==
   /\ e.op = "t"
@@ -110,14 +113,14 @@ TTick ==
 SkipTags ==
   LET p  == IF phase \in Timed THEN StepOf(phase) ELSE <<0, 0>>
       d  == acc' - acc
-  IN   (IF phase' # phase THEN {"C02:phase-order"} ELSE {})
-  \cup (IF phase \in Timed /\ (d < Lower(p) * e.n \/ d > Upper(p) * e.n) THEN {"C02:increment"} ELSE {})
-  \cup (IF phase \in Timed /\ phase' = phase /\ d <= 0 THEN {"C17:no-progress"} ELSE {})
+  IN   (IF phase' # phase THEN {<<"C02", "phase-order">>} ELSE {})
+  \cup (IF phase \in Timed /\ (d < Lower(p) * e.n \/ d > Upper(p) * e.n) THEN {<<"C02", "increment">>} ELSE {})
+  \cup (IF phase \in Timed /\ phase' = phase /\ d <= 0 THEN {<<"C17", "no-progress">>} ELSE {})
   \cup RangeTags
-  \cup (IF cont /\ phase = "attack" /\ e.k < lastK THEN {"C01:attack-not-monotone"} ELSE {})
-  \cup (IF cont /\ phase \in {"decay", "release"} /\ e.k > lastK THEN {"C01:fall-not-monotone"} ELSE {})
+  \cup (IF cont /\ phase = "attack" /\ e.k < lastK THEN {<<"C01", "attack-not-monotone">>} ELSE {})
+  \cup (IF cont /\ phase \in {"decay", "release"} /\ e.k > lastK THEN {<<"C01", "fall-not-monotone">>} ELSE {})
   \cup (IF phase' \in Timed /\ e.q # NaNKey /\ ~Near(e.q, Value(phase', acc', lvlOn, lvlOff, S), CurveTol)
-          THEN {"C01:curve"} ELSE {})
+          THEN {<<"C01", "curve">>} ELSE {})
 
 TSkip ==
   /\ e.op = "skip"
@@ -133,9 +136,9 @@ TOn ==
   /\ lvlOn' = IF phase # "attack" THEN val ELSE lvlOn
   /\ UNCHANGED <<lvlOff, S, step, Skey, lastK, sAtTick, fresh>>
   /\ cont' = (cont /\ phase = "attack")
-  /\ Advance(   (IF ~C02_order("on") \/ (phase # "attack" /\ acc' # 0) THEN {"C02:gate-on"} ELSE {})
-           \cup (IF phase # "attack" /\ phase' = "attack" /\ acc' # 0 THEN {"C01:segment-start"} ELSE {})
-           \cup (IF e.q # val THEN {"C03:gate-changes-output"} ELSE {}))
+  /\ Advance(   (IF ~C02_order("on") \/ (phase # "attack" /\ acc' # 0) THEN {<<"C02", "gate-on">>} ELSE {})
+           \cup (IF phase # "attack" /\ phase' = "attack" /\ acc' # 0 THEN {<<"C01", "segment-start">>} ELSE {})
+           \cup (IF e.q # val THEN {<<"C03", "gate-changes-output">>} ELSE {}))
 
 TOff ==
   /\ e.op = "off"
@@ -144,10 +147,10 @@ TOff ==
   /\ UNCHANGED <<lvlOn, S, step, Skey, lastK, sAtTick, fresh>>
   /\ cont' = (cont /\ phase \in {"release", "rest"})
   /\ Advance(   (IF ~C02_order("off") \/ (phase \in {"attack", "decay", "sustain"} /\ acc' # 0)
-                   THEN {"C02:gate-off"} ELSE {})
+                   THEN {<<"C02", "gate-off">>} ELSE {})
            \cup (IF phase \in {"attack", "decay", "sustain"} /\ phase' = "release" /\ acc' # 0
-                   THEN {"C01:segment-start"} ELSE {})
-           \cup (IF e.q # val THEN {"C03:gate-changes-output"} ELSE {}))
+                   THEN {<<"C01", "segment-start">>} ELSE {})
+           \cup (IF e.q # val THEN {<<"C03", "gate-changes-output">>} ELSE {}))
 
 \* ---- parameters --------------------------------------------------------------------------------
 TSetTime ==
@@ -155,7 +158,7 @@ TSetTime ==
   /\ Observe
   /\ step' = [step EXCEPT ![e.w] = <<e.fl, e.fr>>]
   /\ UNCHANGED <<lvlOn, lvlOff, S, Skey, lastK, cont, sAtTick, fresh>>
-  /\ Advance(IF ~C02_order("set") \/ e.q # val THEN {"C02:set-input-disturbs"} ELSE {})
+  /\ Advance(IF ~C02_order("set") \/ e.q # val THEN {<<"C02", "set-input-disturbs">>} ELSE {})
 
 TSetSustain ==
   /\ e.op = "si" /\ e.w = "s"
@@ -163,7 +166,7 @@ TSetSustain ==
   /\ S' = e.cq /\ Skey' = e.ck
   /\ UNCHANGED <<lvlOn, lvlOff, step, lastK, sAtTick, fresh>>
   /\ cont' = FALSE
-  /\ Advance(IF ~C02_order("set") \/ e.q # val THEN {"C02:set-input-disturbs"} ELSE {})
+  /\ Advance(IF ~C02_order("set") \/ e.q # val THEN {<<"C02", "set-input-disturbs">>} ELSE {})
 
 TNew ==
   /\ e.op = "new"
@@ -171,17 +174,17 @@ TNew ==
   /\ lvlOn' = 0 /\ lvlOff' = 0 /\ val' = 0 /\ S' = Q /\ Skey' = KeyOne
   /\ step' = [a |-> <<e.fl, e.fr>>, d |-> <<e.fl, e.fr>>, r |-> <<e.fl, e.fr>>]
   /\ lastK' = 0 /\ cont' = FALSE /\ sAtTick' = Q /\ fresh' = FALSE
-  /\ l' = l + 1 /\ dead' = FALSE
-  /\ Flag(l, IF e.ph # 0 \/ e.a # 0 \/ e.k # 0 THEN {"C02:initial-state"} ELSE {})
+  /\ l' = l + 1 /\ dead' = {}
+  /\ Flag(l, IF e.ph # 0 \/ e.a # 0 \/ e.k # 0 THEN {<<"C02", "initial-state">>} ELSE {})
 
 TMeta  == e.op = "meta" /\ UNCHANGED <<adsrVars, dead, Skey, lastK, cont, sAtTick, fresh>> /\ l' = l + 1
 TPanic == /\ e.op \in {"panic", "hang"}
           /\ UNCHANGED <<adsrVars, Skey, lastK, cont, sAtTick, fresh>>
-          /\ Advance({"C17:" \o e.op})
+          /\ Advance({<<"C17", e.op>>})
 
 TNext == l <= NRec /\ (TMeta \/ TNew \/ TTick \/ TSkip \/ TOn \/ TOff \/ TSetTime \/ TSetSustain \/ TPanic)
 
-TInit == /\ AdsrInit(<<0, 0>>) /\ l = 1 /\ dead = FALSE /\ Skey = KeyOne /\ lastK = 0 /\ cont = FALSE
+TInit == /\ AdsrInit(<<0, 0>>) /\ l = 1 /\ dead = {} /\ Skey = KeyOne /\ lastK = 0 /\ cont = FALSE
          /\ sAtTick = Q /\ fresh = FALSE /\ FlagInit
 TSpec == TInit /\ [][TNext]_tvars
 =============================================================================
